@@ -318,6 +318,11 @@ add("C04", "fixed", "reparse-error:float-exponent", "float literals were seriali
 add("C04", "fixed", "reparse-error:bracketed-identifier", "a name bound in bracket notation was serialised bare: {% assign ['a b'] = 1 %} became {% assign a b = 1 %}, {% render ['true'] %} became {% render true %}",
     [c04("{% assign ['a b'] = 1 %}{{ ['a b'] }}"), c04("{% for ['a b'] in (1..2) %}{{ ['a b'] }}{% endfor %}"), c04("{% capture ['true'] %}x{% endcapture %}{{ ['true'] }}"), c04("{% increment ['v-1'] %}{% decrement ['if'] %}")], "c4d10da")
 
+# ----------------------------------------------------------------------------- C08 fixed in round 4
+add("C08", "fixed", "outcome-altered:output_stream_limit:escapes-UnicodeEncodeError@output.py:LimitedStringIO.write",
+    "with any output_stream_limit configured, writing a string with a lone surrogate raised UnicodeEncodeError (neither the unlimited result nor a ResourceLimitError)",
+    [{"source": "{{ s }}", "partials": {}, "data": V.enc({"s": "\ud800", "xs": [1]})}, {"source": "a{{ s }}b{{ s }}", "partials": {}, "data": V.enc({"s": "x\udfffy", "xs": [1]})}], "51937a8")
+
 if __name__ == "__main__":
     # further entries are appended by tools/mkfindings.py from triaged replay files and kept in findings_extra.json
     extra_path = os.path.join(VERIF, "tools", "findings_extra.json")
